@@ -235,6 +235,7 @@ class Run:
         call = self.call
 
         class Sched:
+            """performs the scheduled actions of this epoch (first callback of the list)"""
             def __call__(cb, solver):
                 for act in run.sched.get((call, solver.local_epoch), []):
                     if act[0] == 'stop':
@@ -245,11 +246,15 @@ class Run:
                         SetOptimizer(run.make_opt(act[1]), reset=True)(solver)
                     elif act[0] == 'loss':
                         SetLossFn(run.make_loss(act[1]), reset=True)(solver)
+
+        class Dump:
+            """last callback of the list: every callback must run in every epoch, also after a stop request"""
+            def __call__(cb, solver):
                 w.events.append(f'C{call}:{solver.local_epoch}')
                 run.out.append('E ' + run.dump())
         with warnings.catch_warnings():
             warnings.simplefilter('ignore')
-            self.solver.fit(max_epochs, callbacks=list(extra_callbacks) + [Sched()], tqdm_file=None)
+            self.solver.fit(max_epochs, callbacks=[Sched()] + list(extra_callbacks) + [Dump()], tqdm_file=None)
         self.out.append('F agree=true ' + self.dump())
         self.out.append('LOG ' + ' '.join(w.events))
         self.call += 1
